@@ -416,17 +416,16 @@ func (e *renv) scenarioV2(r *Rng, s *sinks, d density) {
 // side of the boundary the chain is (err:timeout vs err:proof) without consuming the packet; the valid
 // message is delivered at a random point (ok strictly before the timeout, err:timeout from it on).
 
-func (e *renv) scenarioBoundaryV1(r *Rng, s *sinks) {
+func (e *renv) scenarioBoundaryV1(r *Rng, s *sinks, byHeight bool) {
 	p := e.path
 	revA, revB := clienttypes.ParseChainID(e.a.ChainID), clienttypes.ParseChainID(e.b.ChainID)
-	byHeight := r.Bool()
 	var th clienttypes.Height
 	var tts uint64
 	if byHeight {
 		// SendPacket + UpdateClient move B two blocks ahead before the first attempt
 		th = clienttypes.NewHeight(revB, uint64(e.b.ProposedHeader.Height)+5+uint64(r.Intn(5)))
 	} else {
-		tts = uint64(e.coord.CurrentTime.UnixNano()) + uint64(20+r.Intn(15))*uint64(time.Second) + uint64(r.Intn(3))
+		tts = uint64(e.coord.CurrentTime.UnixNano()) + uint64(25+r.Intn(15))*uint64(time.Second) + uint64(r.Intn(3))
 	}
 	data := []byte("boundary-" + r.Str("abc", 3))
 	seq, err := p.EndpointA.SendPacket(th, tts, data)
@@ -441,21 +440,25 @@ func (e *renv) scenarioBoundaryV1(r *Rng, s *sinks) {
 	bad := base.clone()
 	bad.proof = flip(r, bad.proof)
 	bad.truth.intact = false
-	deliverAt := r.Intn(14)
-	for i := 0; i < 12; i++ {
-		if !byHeight {
-			now := uint64(e.coord.CurrentTime.UnixNano())
-			switch {
-			case now < tts && r.Chance(0.3):
-				e.coord.IncrementTimeBy(time.Duration(tts-now) - time.Duration(r.Intn(2))) // exactly the timeout, or 1ns before
-			case r.Chance(0.7):
-				e.coord.IncrementTimeBy(time.Duration(1+r.Intn(6)) * time.Second)
-			}
+	// times at which the destination is probed: before, 1ns before, exactly at, after the timeout
+	// (height timeouts: every block is probed, the chain crosses the timeout height by itself)
+	var targets []uint64
+	if byHeight {
+		targets = make([]uint64, 12)
+	} else {
+		now := uint64(e.coord.CurrentTime.UnixNano())
+		if now+2 < tts {
+			targets = append(targets, now+(tts-now)/2)
+		}
+		targets = append(targets, tts-1, tts, tts+1, tts+uint64(time.Second))
+	}
+	deliverAt := r.Intn(len(targets) + 1)
+	for i, t := range targets {
+		if now := uint64(e.coord.CurrentTime.UnixNano()); t > now {
+			e.coord.IncrementTimeBy(time.Duration(t - now))
 		}
 		if i == deliverAt {
-			if e.attemptRecvV1(s, base, "boundary-valid") == "ok" {
-				return
-			}
+			e.attemptRecvV1(s, base, "boundary-valid")
 		}
 		e.attemptRecvV1(s, bad, "boundary-proof-flip")
 	}
@@ -464,7 +467,7 @@ func (e *renv) scenarioBoundaryV1(r *Rng, s *sinks) {
 
 func (e *renv) scenarioBoundaryV2(r *Rng, s *sinks) {
 	revA := clienttypes.ParseChainID(e.a.ChainID)
-	T := uint64(e.coord.CurrentTime.Unix()) + 20 + uint64(r.Intn(15))
+	T := uint64(e.coord.CurrentTime.Unix()) + 25 + uint64(r.Intn(15))
 	pkt, err := e.pathV2.EndpointA.MsgSendPacket(T, mockv2.NewMockPayload(mockv2.ModuleNameA, mockv2.ModuleNameB))
 	if err != nil {
 		return
@@ -475,20 +478,20 @@ func (e *renv) scenarioBoundaryV2(r *Rng, s *sinks) {
 	bad := base.clone()
 	bad.proof = flip(r, bad.proof)
 	bad.truth.intact = false
-	deliverAt := r.Intn(12)
-	for i := 0; i < 10; i++ {
-		now := uint64(e.coord.CurrentTime.UnixNano())
-		switch {
-		case now < T*1_000_000_000 && r.Chance(0.3):
-			// exactly T seconds, or one nanosecond before (still second T-1)
-			e.coord.IncrementTimeBy(time.Duration(T*1_000_000_000-now) - time.Duration(r.Intn(2)))
-		case r.Chance(0.7):
-			e.coord.IncrementTimeBy(time.Duration(1+r.Intn(5))*time.Second + time.Duration(r.Intn(1_000_000_000)))
+	// the last nanosecond of second T-1, the first of second T, and around
+	tns := T * 1_000_000_000
+	var targets []uint64
+	if now := uint64(e.coord.CurrentTime.UnixNano()); now+2 < tns {
+		targets = append(targets, now+(tns-now)/2)
+	}
+	targets = append(targets, tns-1, tns, tns+999_999_999, tns+1_000_000_000)
+	deliverAt := r.Intn(len(targets) + 1)
+	for i, t := range targets {
+		if now := uint64(e.coord.CurrentTime.UnixNano()); t > now {
+			e.coord.IncrementTimeBy(time.Duration(t - now))
 		}
 		if i == deliverAt {
-			if e.attemptRecvV2(s, base, "boundary-valid") == "ok" {
-				return
-			}
+			e.attemptRecvV2(s, base, "boundary-valid")
 		}
 		e.attemptRecvV2(s, bad, "boundary-proof-flip")
 	}
@@ -556,10 +559,10 @@ func relayHistory(r *Rng, s *sinks) {
 	e.scenarioV1(r, s, d, e.path, e.pathOrd, false)
 	e.scenarioV1(r, s, d, e.pathOrd, e.path, true)
 	e.scenarioV2(r, s, d)
-	for i := 0; i < 2; i++ {
-		e.scenarioBoundaryV1(r, s)
-		e.scenarioBoundaryV2(r, s)
-	}
+	e.scenarioBoundaryV1(r, s, true)
+	e.scenarioBoundaryV1(r, s, false)
+	e.scenarioBoundaryV2(r, s)
+	e.scenarioBoundaryV2(r, s)
 	e.scenarioExpiry(r, s)
 }
 
